@@ -664,6 +664,16 @@ func (e *Env) runRPC() error {
 			for k := len(stamped) - 1; k >= 0; k-- {
 				stamped[k].Write()
 			}
+			if step.Container && len(items) > 0 && step.Push != nil {
+				// a service message of the server's own travels in the same container as the answers (behind them, or - odd
+				// argument - in front of them)
+				it := &refsrv.Item{Body: PushBody(step.Push), ContentRelated: step.Push.ContentRelated}
+				if step.Push.Arg>>2&1 == 1 {
+					items = append([]*refsrv.Item{it}, items...)
+				} else {
+					items = append(items, it)
+				}
+			}
 			if step.Container && len(items) > 0 {
 				if step.Nested {
 					c.SendNested(items)
